@@ -34,7 +34,7 @@ ASSUMPTIONS = [
     "callbacks raise only Exception (BaseException from a subscriber is out of the statement's scope)",
     "single thread; batches and batch items as futures are covered by C11's model",
 ]
-KINDS = ["lazyOk", "lazyErr", "const", "error", "taskOk", "taskErr"]
+KINDS = ["lazyOk", "lazyErr", "const", "error", "taskOk", "taskErr", "lazySelfSet"]
 OPS = ["value", "error", "call", "isComputed", "setValue", "setError", "reset", "subscribe"]
 UNKNOWN = 999999
 
@@ -81,17 +81,103 @@ def plan(tier, seed):
             for b in basic:
                 for c in ([["value"], ["error"]] if tier == "quick" else basic):
                     cases.append({"kind": [k, 1], "ops": [[*a], [*b], [*c]]})
+    cases += [suspended_case(o, c, subs) for o in ("value", "error") for c in (False, True)
+              for subs in ([], [0], [1], [0, 0], [1, 0], [0, 1, 0])]
     cases += [gen_case(rng) for _ in range(n)]
     return cases
 
 
+def suspended_case(outside, cleanup_raises, subs):
+    return {"special": "suspended", "outside": outside, "cleanup": cleanup_raises, "subs": subs}
+
+
+def run_suspended(case):
+    """an AsyncTask that is suspended at a yield inside try/finally is completed from outside (set_value / set_error
+    by the flush body of the batch it waits for); its clean-up may raise.  C10: the outcome is the outside one, set once,
+    and every subscriber is notified exactly once.  (Judged by a direct expectation: blocking tasks are not in the
+    one-future model.)"""
+    import asynq
+    from asynq import batching
+
+    v1, e1, boom = ("v", 1), UserErr("outside"), RuntimeError("clean-up raises")
+    holder = []
+    log = []
+
+    class B(batching.BatchBase):
+        def _try_switch_active_batch(self):
+            if cur[0] is self:
+                cur[0] = B()
+
+        def _flush(self):
+            t = holder[0]
+            try:
+                if case["outside"] == "value":
+                    t.set_value(v1)
+                else:
+                    t.set_error(e1)
+            except BaseException as x:
+                log.append("set-raised-" + ("boom" if x is boom else type(x).__name__))
+            for it in self.items:
+                it.set_value(0)
+
+    class I(batching.BatchItemBase):
+        def __init__(self):
+            batching.BatchItemBase.__init__(self, cur[0])
+
+    cur = [None]
+    cur[0] = B()
+
+    @asynq.asynq()
+    def body():
+        try:
+            yield I()
+        finally:
+            if case["cleanup"]:
+                raise boom
+        return ("v", 2)
+
+    asynq.scheduler.reset()
+    t = body.asynq()
+    holder.append(t)
+    seen = []
+    for sid, raising in enumerate(case["subs"]):
+        def cb(f, sid=sid, raising=raising):
+            try:
+                o = "val" if f.value() is v1 else "other-value"
+            except BaseException as x:
+                o = "err" if x is e1 else "other-error"
+            seen.append("%d:%s" % (sid, o))
+            if raising:
+                raise RuntimeError("subscriber raises")
+        t.on_computed.subscribe(cb)
+    try:
+        r = t.value()
+        out = "val" if r is v1 else "other-value"
+    except BaseException as x:
+        out = "err" if x is e1 else "raised-" + type(x).__name__
+    try:
+        r2 = t.value()
+        out2 = "val" if r2 is v1 else "other-value"
+    except BaseException as x:
+        out2 = "err" if x is e1 else "raised-" + type(x).__name__
+    asynq.scheduler.reset()
+    lines = ["(case suspended %d %s %d %d)" % (case["id"], case["outside"], 1 if case["cleanup"] else 0, len(case["subs"])),
+             "(result %s %s (%s))" % (out, out2, " ".join(seen)), "(end)"]
+    return {"lines": lines, "features": ["suspended-completed-outside"], "nontrivial": "susp-%s-%s-%s" % (
+        case["outside"], case["cleanup"], case["subs"])}
+
+
 def shrink(case):
+    if case.get("special"):
+        return
     ops = case["ops"]
     for i in range(len(ops)):
         yield {"kind": case["kind"], "ops": ops[:i] + ops[i + 1:]}
 
 
 def neighbours(case, rng):
+    if case.get("special"):
+        return
     for k in KINDS:
         yield {"kind": [k, case["kind"][1]], "ops": case["ops"]}
     for _ in range(24):
@@ -104,6 +190,8 @@ def neighbours(case, rng):
 
 
 def signature(case, v):
+    if case.get("special"):
+        return "suspended/%s" % v["spec"]
     return "%s/%s" % (case["kind"][0], v["spec"])
 
 
@@ -116,6 +204,8 @@ class UserErr(Exception):
 
 
 def run_case(case):
+    if case.get("special") == "suspended":
+        return run_suspended(case)
     import asynq
     from asynq import futures
 
@@ -138,6 +228,15 @@ def run_case(case):
             runs[0] += 1
             raise errs[arg]
         fut = futures.Future(provider)
+    elif kind == "lazySelfSet":
+        holder = []
+
+        def provider():
+            runs[0] += 1
+            holder[0].set_value(vals[arg])      # somebody completes the future while its provider is running
+            return vals[(arg % 3) + 1]
+        fut = futures.Future(provider)
+        holder.append(fut)
     elif kind == "const":
         fut = futures.ConstFuture(vals[arg])
     elif kind == "error":
